@@ -587,6 +587,18 @@ class G:
             self.emit("dense %s" % x)
         self.emit("new e2")
         self.emit("dense e2")
+        # full chunks of irregular words (they stay bitmap containers whatever RunOptimize thinks), borrowed, optimized, then edited
+        for nchunks in (1, 2):
+            y = self.fresh()
+            ws = ["%x" % (r.getrandbits(64) | 1) for _ in range(1024 * nchunks)]
+            self.emit("fromdense %s 0 %s" % (y, ".".join(ws)))
+            self.emit("opt %s" % y)
+            for c in range(nchunks):
+                self.emit("%s %s %d" % (r.choice(["add", "rem"]), y, c * CH + r.randrange(CH)))
+                self.emit("flip %s %d %d" % (y, c * CH + 100, c * CH + 200))
+            self.emit("densechk")
+            self.emit("wf %s" % y)
+            self.count("dense:opt-then-edit-full")
         # a trailing partial chunk that is dense (more than 4096 bits: becomes a bitmap container), with and without spare capacity
         for n, copy in [(1500, 0), (1500, 1), (1025 + 70, 0), (500, 0), (2048 + 100, 0)]:
             y = self.fresh()
